@@ -5,9 +5,11 @@ Oracle: exact comparison (fractions) of every table row with the planted truth.
 Coq correspondence: the exact model of find_offsets, run on the crossing values
 the implementation stored, must reproduce the stored offsets up to the origin.
 """
+import os
 from fractions import Fraction
 
-from harness import common as C
+os.environ.setdefault('OPENBLAS_NUM_THREADS', '1')   # (before numpy is loaded: a busy machine makes threaded BLAS 100x slower on the large cases)
+from harness import common as C  # noqa: E402
 from harness import curves_common as CC
 from harness.props import c05 as P5
 
@@ -137,6 +139,9 @@ def check_dataset(r, out, corr):
                 break
     if len(offs) >= 3 and len(curve) >= 3 and len(roffs) >= 2:
         out.nontriv(('c06', str(plan['events']), plan['step'], plan['grid_step']))
+    if plan.get('large'):
+        out.count('large record: judged by the oracle only (not sent to Coq)')
+        return
     # --- correspondence: exact model on the stored crossings reproduces the stored offsets (up to the origin)
     for kind, levels, offsets in (('recession', by_level, offs), ('rise', rl, roffs)):
         if len(offsets) < 2:
@@ -147,6 +152,34 @@ def check_dataset(r, out, corr):
         rel = [offsets[s] - offsets[ids[-1]] for s in ids]
         tol = 1e-7 * P5.scale_of(hm)
         corr.append(('(%s, %s, %s)' % (P5.hm_lit(hm), C.cQ(tol), C.cQs(rel)), dict(case, kind=kind)))
+
+
+def count_sizes(r, out):
+    """Measured on the record: the largest number of grid levels passed by one recession step / one rise, and (for
+    the staircase records) the conditioning of the recession alignment actually stored."""
+    import math
+    plan = r['plan']
+    if r['status'] != 'ok' or not (plan.get('plunge') or plan.get('chain')):
+        return
+    g, wl = plan['grid_step'], r['water_level']
+    ep = sorted(wl)
+    fall = 0
+    for a, t, b in r['zeta_interval']:
+        if t == 'interstorm':
+            zs = [wl[e] for e in ep if a <= e <= b]
+            fall = max([fall] + [math.ceil(u / g) - math.ceil(v / g) for u, v in zip(zs, zs[1:])])
+    out.count('largest number of grid levels passed by ONE recession step: %s'
+              % ('> 128' if fall > 128 else '17-128' if fall > 16 else '<= 16'))
+    if plan.get('plunge'):
+        out.count('record with plunging recession steps: step %d s, grid %s mm' % (plan['step'], g))
+    if plan.get('chain'):
+        from harness import gen_offsets as GO
+        hm = {}
+        for start, zn, t in r['recession_interval_zeta']:
+            hm.setdefault(zn, []).append((start, t))
+        ratio = GO.singular_ratio(hm)
+        out.count('staircase record: %d recessions aligned, %d stored crossings, sigma_min/sigma_max of the design matrix in [%s, 10x)'
+                  % (len(r['recession_interval']), len(r['recession_interval_zeta']), P5.bucket(ratio)))
 
 
 def run_cases(plans, out, label):
@@ -161,6 +194,7 @@ def run_cases(plans, out, label):
         out.count('two recessions from the same highest level=%s' % bool(plan.get('tie_top')))
         if plan.get('top_cell'):
             out.count('highest level positive and off the grid lines, top grid level crossed by >= 2 rises and >= 2 recessions')
+        count_sizes(r, out)
         check_dataset(r, out, corr)
     bad, errs, _ = C.run_case_shards(
         PROP, label, PRE, 'head_mapping * Q * list Q',
@@ -184,9 +218,17 @@ def run(ctx, out):
     # grid crossed by >= 2 rises and >= 2 recessions (own random streams)
     plans += [CC.make_plan(C.rng_for(seed, PROP, 'top', k), gaps=True, odd_steps=True, top_cell=True, noise=False)
               for k in range(max(6, n // 8))]
+    # size / extremes (own random streams): records whose recession steps pass 130-400 grid levels at once (daily and
+    # weekly data, and fine grids), and one ill-conditioned staircase record (oracle only)
+    for k in range(3 if tier == 'quick' else 24):
+        rp = C.rng_for(seed, PROP, 'plunge', k)
+        plans.append(CC.make_plan(rp, n_events=rp.randrange(3, 6), plunge=True, step=[604800, 86400, None][k % 3],
+                                  grid_step=[0.1, 0.5, 0.05, 1.0][k % 4], gaps=(k % 2 == 1)))
+    for k in range(1 if tier == 'quick' else 4):
+        plans.append(CC.make_chain_plan(C.rng_for(seed, PROP, 'chain', k)))
     run_cases(plans, out, 'cl')
     out.rule = ('Synthetic records from a planted truth (recession curve piecewise linear on the sampling lattice, constant '
-                'specific yield; 3-7 storms; time steps 10/15/20/30/60 min and 90/100/460/3900 s; 40% with a gap in the water-level record in mid-recession; grid steps 0.5/1/2/2.5 mm; 1/3 with the rain step after each storm exactly at the storm threshold; 1/4 with two recessions starting from exactly the same highest level; plus 1/8 more whose highest level is positive, off the grid lines, with the top grid level crossed by >= 2 rises and >= 2 recessions) through the five CLI '
+                'specific yield; 3-7 storms; time steps 10/15/20/30/60 min and 90/100/460/3900 s; 40% with a gap in the water-level record in mid-recession; grid steps 0.5/1/2/2.5 mm; 1/3 with the rain step after each storm exactly at the storm threshold; 1/4 with two recessions starting from exactly the same highest level; plus 1/8 more whose highest level is positive, off the grid lines, with the top grid level crossed by >= 2 rises and >= 2 recessions; plus 3 records - weekly, daily, ordinary steps; grids 0.05-1 mm - whose recession curve drops 130-400 grid levels within single time steps; plus one LARGE ill-conditioned record, judged by the oracle only: 2-4 long recessions sharing 1200-2000+ levels and a staircase of 600-900 short recessions each sharing one grid level with the next, sigma_min/sigma_max of the stored alignment recorded) through the five CLI '
                 'commands; every table row compared with the truth, the master-curve views compared with the tables. Non-trivial: >= 3 recession pieces and >= 2 rises '
                 'assembled, >= 3 levels; distinct by event plan.')
     out.samples = [dict(plan_events=plans[0]['events'], step=plans[0]['step'], grid=plans[0]['grid_step'], sigma=plans[0]['sigma'])]
